@@ -253,7 +253,7 @@ func (c05) runFile(ts *tape.Set, tier Tier) *Result {
 	if tier == Thorough {
 		maxSize = 48 << 10
 	}
-	spec := gen.DrawFileSpec(shape, gen.FileOpts{MaxSize: maxSize, AllowOdd: true, MultiBlock: true})
+	spec := gen.DrawFileSpec(shape, gen.FileOpts{MaxSize: maxSize, AllowOdd: true, AllowNoSizes: true, MultiBlock: true})
 	fragMode := shape.Pick(2, 1, 1, 1)
 	fragSeed := shape.Raw()
 	nOps := 1 + shape.Intn(10)
@@ -277,6 +277,32 @@ func (c05) runFile(ts *tape.Set, tier Tier) *Result {
 	bounds := model.Boundaries()
 	sc := &c05Scenario{Kind: "file", Spec: spec.String(), Blocks: len(model.Spans)}
 	res.Scenario = sc
+	if spec.Writer == "odd-noblocksizes" || spec.Writer == "odd-partial-meta" {
+		res.probe("file-with-partial-size-records")
+	}
+	// ---- obtaining the lazy view reads nothing: resolving a path TO a file
+	// fetches the blocks on the path, and the file's root is the last of them
+	{
+		st.ResetLog()
+		st.ReadPolicy = nil
+		w := newWorld(st, false, nodeReifier)
+		var oerr error
+		panicked, site, pmsg := guard(func() { _, _, oerr = openFile(w, root, 1) })
+		res.Execs++
+		if panicked {
+			res.Violation = &Violation{Class: "c05/file/panic@" + site, Msg: "opening the lazy view panicked: " + pmsg}
+			return res
+		}
+		if oerr == nil {
+			for _, c := range st.ReadCids {
+				if !c.Equals(root) {
+					res.Violation = &Violation{Class: "c05/file/fetch-on-open", Msg: fmt.Sprintf("obtaining the lazy view of the file (no byte read yet) requested block %s besides the root (%d requests)", shortCid(c), len(st.ReadCids))}
+					res.Excerpt = excerpt(st.Log, 12)
+					return res
+				}
+			}
+		}
+	}
 	ops := ts.T("ops")
 	var sig uint64
 	pickEdgeH := func(r uint64) int64 {
@@ -338,7 +364,7 @@ func (c05) runFile(ts *tape.Set, tier Tier) *Result {
 				res.probe("abandoned-seek")
 			}
 			steps = append(steps, step{a, b, w, decoy})
-			for k := range model.Allowed(a, b) {
+			for k := range model.AllowedLazy(a, b) {
 				union[k] = true
 			}
 			sc.Ops = append(sc.Ops, fmt.Sprintf("history step %d: %s to %d, readfull %d", i, []string{"SeekStart", "SeekCurrent", "SeekEnd"}[w], a, b-a))
@@ -369,7 +395,7 @@ func (c05) runFile(ts *tape.Set, tier Tier) *Result {
 				for i, stp := range steps {
 					allowed := union
 					if !starve {
-						allowed = model.Allowed(stp.a, stp.b)
+						allowed = model.AllowedLazy(stp.a, stp.b)
 					}
 					outside = nil
 					monitor(st, allowed, starve, &outside)
@@ -490,7 +516,7 @@ func (c05) runFile(ts *tape.Set, tier Tier) *Result {
 				a--
 			}
 		}
-		allowed := model.Allowed(a, b)
+		allowed := model.AllowedLazy(a, b)
 		opName := fmt.Sprintf("%s[%d,%d)", []string{"seek+readfull", "subset-walk"}[mode], a, b)
 		sc.Ops = append(sc.Ops, opName)
 		if isBoundary(bounds, a) && a > 0 {
